@@ -216,7 +216,7 @@ func main() {
 				}
 			}
 			c, _ := txn.OpenCursor(dbi)
-			msg := snapshot.NewDBI()
+			msg := snapshot.NewDBISize(4096)
 			msg.SetName("dups")
 			for f := uint(lmdb.First); ; f = lmdb.Next {
 				k, v, err := c.Get(nil, nil, f)
